@@ -45,6 +45,18 @@ ResolveAlias(table, name) ==
 CompilerFor(table, name) ==
   LET r == ResolveAlias(table, name) IN IF r.outcome = "ok" THEN table[r.target] ELSE EmptyCompiler
 
+\* ---- a user configuration EXTENDS the built-in one --------------------------------------------
+\* a name defined in both: the user's options, rules, modes and passes are appended to / laid over the
+\* built-in ones (an alias in the user file replaces the definition; a definition replaces an alias)
+MergeF(f, g) == [k \in DOMAIN f \cup DOMAIN g |-> IF k \in DOMAIN g THEN g[k] ELSE f[k]]
+Extend(base, user) ==
+  [n \in DOMAIN base \cup DOMAIN user |->
+     IF n \notin DOMAIN user THEN base[n]
+     ELSE IF n \notin DOMAIN base THEN user[n]
+     ELSE IF user[n].alias # "" THEN user[n]
+     ELSE [alias |-> "", options |-> base[n].options \o user[n].options, rules |-> base[n].rules \o user[n].rules,
+           modes |-> MergeF(base[n].modes, user[n].modes), passes |-> MergeF(base[n].passes, user[n].passes)]]
+
 \* ---- parsing one command line --------------------------------------------------------------
 RuleIdx(c, flag) == LET S == {i \in 1..Len(c.rules) : \E j \in 1..Len(c.rules[i].flags) : c.rules[i].flags[j] = flag}
                     IN IF S = {} THEN 0 ELSE CHOOSE i \in S : TRUE
